@@ -188,8 +188,7 @@ func runCase(t *rapid.T, tr *ce.Tree, steps []step, cache uint64) {
 				if sel.Murky[n] && n.ChainValid && sel.Arrived[n.Parent] {
 					h := n.Hash
 					if have, _ := env.Chain.HaveBlock(&h); have && !env.Chain.IsKnownOrphan(&h) {
-						delete(sel.Murky, n)
-						sel.Arrived[n] = true
+						sel.ResolvedArrived(n)
 					}
 				}
 			}
